@@ -3023,7 +3023,8 @@ func apiRound8Typed(repM, repU *Report) {
 		F func() int
 		N int
 	}
-	k1, k2, k3 := &fk{func() int { return 1 }, 2}, &fk{func() int { return 5 }, 1}, &fk{nil, 3}
+	// (k1 and k2 differ ONLY in what their funcs return: ordered by the default-options key streams, 1 before 5)
+	k1, k2, k3 := &fk{func() int { return 1 }, 1}, &fk{func() int { return 5 }, 1}, &fk{nil, 3}
 	m := map[*fk]string{k1: "a", k2: "b", k3: "c"}
 	ig := sb.Ctx{IgnoreFuncs: true, Marshal: sb.MarshalValue}
 	first, err := collectN(sb.MarshalCtx(ig, m), 1000)
@@ -3225,15 +3226,12 @@ func apiRound8More(repM, repU *Report) {
 			repU.Evaluations++
 			bad := e != nil
 			for _, k := range seen {
-				if _, ok := back[k]; !ok && !bad {
-					func() {
-						defer func() {
-							if recover() != nil {
-								bad = true
-							}
-						}()
-						_, ok = back[k]
-					}()
+				found := false
+				func() {
+					defer func() { _ = recover() }() // a path element that is not even hashable is not a key of the map
+					_, found = back[k]
+				}()
+				if !found {
 					bad = true
 				}
 			}
@@ -3282,9 +3280,17 @@ func apiFillHashAfterEdit(rep *Report) {
 // the same stream value see every token exactly once between them
 func apiConcatAdvancesInPlace(rep *Report) {
 	first := []sb.Token{tokI(1), tokI(2)}
-	body := []sb.Token{tokS("a"), tokS("b"), tokS("c"), tokS("d"), tokS("e")}
+	value := struct {
+		A int
+		B []string
+		C map[string]int
+	}{1, []string{"x", "y"}, map[string]int{"k": 2}}
+	body, _ := marshalTokens(value, nil)
 	for stop := len(first); stop <= len(first)+len(body); stop++ { // (the consumer has at least finished the first stream)
-		last := tokensFrom(body)
+		var last sb.Stream = tokensFrom(body)
+		if stop%2 == 0 {
+			last = sb.Marshal(value) // a producer whose steps are fresh closures
+		}
 		cs := sb.ConcatStreams(tokensFrom(first), last)
 		var got []sb.Token
 		for i := 0; i < stop; i++ {
